@@ -1647,3 +1647,37 @@ Lemma range_overflow_refuted :
   snd (walk R 5 Fwd 40 (IRange (mkRng 0 9223372036854775807 4611686018427387904))) = WRunaway /\
   range_len R (mkRng (-9223372036854775808) 9223372036854775807 4611686018427387904) = 1.
 Proof. vm_compute. auto. Qed.
+
+(* ------------------------------------------------------------------ enumerate(I) = zip(range(0, len I), I) *)
+Lemma range_count_upto n : 0 <= n -> range_count (mkRng 0 n 1) = n.
+Proof.
+  intros Hn. unfold range_count. cbn [r_start r_stop r_step]. destruct (Z.leb_spec n 0); [lia|].
+  change (Z.abs 1) with 1. rewrite Z.div_1_r. lia.
+Qed.
+
+Lemma enumerate_summary f u cvs : wb f u cvs -> it_len R u = OVal (zlen cvs) ->
+  item_len_of f u = OVal (zlen cvs) -> zlen cvs < box ->
+  exists s ch, mk_enumerate R u = OVal s /\ wb f s ch /\ length ch = length cvs /\
+    forall j, (j < length cvs)%nat ->
+      nth_error (map snd ch) j = Some (VTup [VInt (Z.of_nat j); nth j (map snd cvs) dv]).
+Proof.
+  intros H Hl Hil Hn. set (r := mkRng 0 (zlen cvs) 1).
+  assert (Hb : in_box r) by (unfold r, in_box, box, zlen in *; cbn [r_start r_stop r_step]; lia).
+  assert (Hc : range_count r = zlen cvs) by (apply range_count_upto; unfold zlen; lia).
+  exists (IZip [IRange r; u]), (zip_chain [range_chain r; cvs]).
+  assert (Hlr : length (range_chain r) = length cvs).
+  { unfold range_chain. rewrite map_length, range_elems_length, Hc. unfold zlen. lia. }
+  destruct (zip_summary f [IRange r; u] [range_chain r; cvs]) as (Hw & Hlen & Hnth).
+  - congruence.
+  - constructor; [now apply wb_range|]. constructor; [exact H|constructor].
+  - constructor; [|constructor; [exact Hil|constructor]].
+    unfold item_len_of. cbn [implements_len it_len]. rewrite range_len_ok by auto. rewrite Hc.
+    unfold zlen. now rewrite Hlr.
+  - assert (Hm : minlen [range_chain r; cvs] = length cvs).
+    { change (minlen [range_chain r; cvs]) with (Nat.min (length (range_chain r)) (length cvs)). lia. }
+    split; [unfold mk_enumerate; now rewrite Hl|]. split; [exact Hw|]. split; [lia|].
+    intros j Hj. rewrite Hnth by lia. cbn [map]. do 3 f_equal.
+    rewrite range_chain_snd. apply nth_error_nth.
+    rewrite nth_error_map, range_elems_nth by (rewrite Hc; unfold zlen; lia).
+    cbn [option_map]. do 2 f_equal. unfold range_val, r. cbn [r_start r_stop r_step]. change (0 <? 1) with true. cbv iota. lia.
+Qed.
